@@ -38,6 +38,7 @@ NEGATIVE CONTROL (every invocation, `negative_control`): on fixed cases
         Format_Item(2008).match the `len(strip_string) > 1` guard dropped (IndexError on `*`)
         Loop_Control(2008).match CONCURRENT tested before the F2003 forms
         Arithmetic_If_Stmt.match `rfind` -> `find`
+        Format_Item_List.match  the repair fa6d1cf reverted (`int("1 2")`: ValueError escapes again)
         Read_Stmt.tostr         an assert that fires on parsed input
       each must be REPORTED as a disagreement on at least one fixed case;
   (last) one driver answer flipped -> reported.
@@ -451,11 +452,11 @@ def _is_bare(node):
 # ------------------------------------------------------------------------------- samples
 
 PROBES = {
-    "Format_Stmt": ["format(*)", "FORMAT(1 2habc)", "format()", "format(*(i5))", "format(i5,*(i5,1x))",
+    "Format_Stmt": ["format(*)", "FORMAT(1 2habc)", "format(1 2habcdefghijkl, i3)", "format(1 2 habcdefghijkl)", "format(1 0h          )", "format()", "format(*(i5))", "format(i5,*(i5,1x))",
                     "format(3habc, i2)", "format(2/, a)", "format(a/b:c)", "format(1p,e10.3)",
                     "format('a,b)(', i3)", "format(i5,)", "format((a)", "format(a))"],
     "Format_Item": ["*", "*(a)", "* (a)", "2(a)", "2 (a, i5)", "2", "", " ", "(a)", "a", "1pe10.3", "*()", "*a"],
-    "Format_Item_List": ["1 2habc", "1 0h", "3habc", "3habcd", "3habc/", "/,a", "a//b", "2/", "2 /a", "2",
+    "Format_Item_List": ["1 2habc", "1 0h", "1 2habcdefghijkl, i3", "1 2 habcdefghijkl/", "1  0habcdefghij:a", "3habc", "3habcd", "3habc/", "/,a", "a//b", "2/", "2 /a", "2",
                          "a,", ",a", "a,,b", ":", "a:b", "12 habcdefghijkl,a", "'x,y',a", "i5,2(a,b)/"],
     "Control_Edit_Desc": ["/", ":", "$", "2/", "2 /", "1p", "-1 P", "p", "", " ", "//", "x"],
     "Write_Stmt": ["write(*,*)", "write(*,*) a(1)", "write(*,*) a, b(i)", "WRITE (6, '(a)') 'x)'",
@@ -882,6 +883,10 @@ MUTATIONS = [
     ("Arithmetic_If_Stmt.match rfind->find", "f2003", F3, "Arithmetic_If_Stmt", "match",
      "i = line.rfind(\")\")", "i = line.find(\")\")",
      [("Arithmetic_If_Stmt", "if (a(1)) 1,2,3")]),
+    ("Format_Item_List.match Hollerith count with blanks (fa6d1cf reverted: int('1 2'))", "f2003", F3,
+     "Format_Item_List", "match",
+     "hol_length_str = match_str[:-1].replace(\" \", \"\")", "hol_length_str = match_str[:-1]",
+     [("Format_Item_List", "1 2habc"), ("Format_Item_List", "1 2habcdefghijkl, i3")]),
     ("Read_Stmt.tostr assert on input", "f2003", F3, "Read_Stmt", "tostr",
      "assert self.items[1] is None, repr(self.items)", "assert self.items[2] is not None, repr(self.items)",
      [("Read_Stmt", "read(5,*)")]),
@@ -931,7 +936,8 @@ CONTROL_CASES = [("f2003", "Write_Stmt", "write(*,*) a(1)"), ("f2003", "Write_St
                  ("f2008", "Format_Item", "*"), ("f2008", "Format_Item", "*(a)"),
                  ("f2008", "Loop_Control", "concurrent = 1, 2"), ("f2008", "Loop_Control", "concurrent (i=1:n)"),
                  ("f2003", "Arithmetic_If_Stmt", "if (a(1)) 1,2,3"), ("f2003", "Read_Stmt", "read(5,*)"),
-                 ("f2003", "Call_Stmt", "call s(a, b)"), ("f2003", "Format_Item_List", "1 2habc")]
+                 ("f2003", "Call_Stmt", "call s(a, b)"), ("f2003", "Format_Item_List", "1 2habc"),
+                 ("f2003", "Format_Item_List", "1 2habcdefghijkl, i3"), ("f2008", "Format_Stmt", "format(1 2habcdefghijkl, i3)")]
 
 
 def set_std(std):
